@@ -382,6 +382,7 @@ func MonitorC12(c *Case, o *Obs) []Finding {
 			}
 		}
 	}
+	out = append(out, monitorReplayComplete(c, o)...)
 	// completeness: every node announced after the topology was final and the graph is connected. With hop limits
 	// that can cut the mesh the expectation is order-independent only on a tree (unique paths): there an agent must
 	// learn an origin exactly when every agent on the way forwards (distance < its limit) and it accepts itself
@@ -731,6 +732,73 @@ func monitorC14Accept(c *Case, o *Obs) []Finding {
 		for p := 0; p < c.N && adj != nil; p++ {
 			if adj[n][p] && p != st.DelFrom && p != n && !contains(st.DelSeenBy, p) && !got[p] {
 				out = append(out, Finding{"announcement-not-forwarded", fmt.Sprintf("step %d: node %d accepted the first copy of (%d,%d) (path %v, max_hops %d) but did not forward it to neighbour %d", si, n, st.DelOrigin, st.DelSeq, st.DelPath, l, p)})
+			}
+		}
+	}
+	return out
+}
+
+// monitorReplayComplete: a peer that connects learns the table from the
+// full-table replay. For a connect x-y, once the frames are delivered (no
+// topology change, cleanup, withdrawal or expiry in between), y must hold
+// every (kind, id, origin) that x held before the connect and could pass on
+// (not learned from y, y not on the path, within both hop limits), unless y
+// had already seen the advertisement the entry stems from.
+func monitorReplayComplete(c *Case, o *Obs) []Finding {
+	var out []Finding
+	if len(o.snaps) == 0 {
+		return nil
+	}
+	for _, op := range c.Ops {
+		if op.K == "forget" || (op.K == "advance" && op.D >= 100) {
+			return nil
+		}
+	}
+	for j, op := range c.Ops {
+		if op.K != "connect" || !o.Steps[j].Applied || j == 0 {
+			continue
+		}
+		q := -1
+		for t := j; t < len(c.Ops); t++ {
+			if t > j {
+				k := c.Ops[t].K
+				if k == "connect" || k == "disconnect" || k == "cleanup" || k == "withdraw" {
+					break
+				}
+			}
+			if o.Steps[t].InFlight == 0 {
+				q = t
+				break
+			}
+		}
+		if q < 0 {
+			continue
+		}
+		pre, post := o.Snap(j-1), o.Snap(q)
+		for _, xy := range [][2]int{{op.A, op.B}, {op.B, op.A}} {
+			x, y := xy[0], xy[1]
+			lx, ly := c.EffLimit(x), c.EffLimit(y)
+			for _, e := range pre[x].Entries {
+				if e.NextHop == y || e.Origin == y || contains(e.Path, y) {
+					continue
+				}
+				hops := len(e.Path) + 1
+				if (lx > 0 && hops > lx) || (ly > 0 && hops > ly) {
+					continue
+				}
+				if e.Origin != x && seenHas(pre[y], key{e.Origin, e.Seq}) {
+					continue
+				}
+				found := false
+				for _, f := range post[y].Entries {
+					if f.Kind == e.Kind && f.ID == e.ID && f.Origin == e.Origin {
+						found = true
+						break
+					}
+				}
+				if !found {
+					out = append(out, Finding{"replay-incomplete", fmt.Sprintf("step %d: %d connected to %d; %d held kind %d id %d of origin %d (sequence %d, path %v) but after the replay was delivered (step %d) %d holds nothing for it", j, y, x, x, e.Kind, e.ID, e.Origin, e.Seq, e.Path, q, y)})
+				}
 			}
 		}
 	}
